@@ -305,7 +305,23 @@ func exclusiveThenCommon(t *rapid.T) *ref.Doc {
 	if rapid.Bool().Draw(t, "commonfirst") {
 		sels = []*ref.Selection{common, exclusive}
 	}
-	return &ref.Doc{Ops: []*ref.Operation{{Op: "query", Sels: sels}}, Frags: []*ref.Fragment{a, b}}
+	frags := []*ref.Fragment{a, b}
+	// optionally one or both fragments sit in a fragment cycle (through a third fragment, directly,
+	// or through each other): the comparison must still end
+	switch rapid.IntRange(0, 5).Draw(t, "cycle") {
+	case 0:
+		a.Sels = append(a.Sels, &ref.Selection{Kind: "Spread", Name: "C"})
+		frags = append(frags, &ref.Fragment{Name: "C", TypeCond: "Person", Sels: append(body(), &ref.Selection{Kind: "Spread", Name: "A"})})
+	case 1:
+		b.Sels = append(b.Sels, &ref.Selection{Kind: "Spread", Name: "C"})
+		frags = append(frags, &ref.Fragment{Name: "C", TypeCond: "Person", Sels: append(body(), &ref.Selection{Kind: "Spread", Name: "B"}, &ref.Selection{Kind: "Spread", Name: "A"})})
+	case 2:
+		a.Sels = append(a.Sels, &ref.Selection{Kind: "Spread", Name: "B"})
+		b.Sels = append(b.Sels, &ref.Selection{Kind: "Spread", Name: "A"})
+	case 3:
+		a.Sels = append(a.Sels, &ref.Selection{Kind: "Field", Name: "pet", Sels: []*ref.Selection{{Kind: "Field", Name: "owner", Sels: []*ref.Selection{{Kind: "Spread", Name: "A"}}}}})
+	}
+	return &ref.Doc{Ops: []*ref.Operation{{Op: "query", Sels: sels}}, Frags: frags}
 }
 
 // FragmentGraphDocument draws a document whose fragments form a random spread graph: mostly a
